@@ -167,6 +167,10 @@ func (x *Explorer) doAppend(st *State, s0, t0 Val) Val {
 				row = Store(row, Add(Add(s.Off, s.Len), IntLit(int64(j))), Select(trow, Add(t.Off, IntLit(int64(j)))))
 			}
 			st.heapSet(name, Store(arr, ref, row))
+			if len(names) == 1 {
+				x.bvalPrefixKept(st, s, old, row)
+				x.bvalAppended(st, s, t, trow, row)
+			}
 			if strings.HasSuffix(name, "#len") && k == 1 {
 				// running total of element lengths (sumLen): the old prefix keeps its sum, the new
 				// element adds its length
@@ -198,6 +202,10 @@ func (x *Explorer) doAppend(st *State, s0, t0 Val) Val {
 		st.assume(Forall([]*Term{k}, Implies(And(Ge(k, IntLit(0)), Lt(k, s.Len)), Eq(Select(nrow, Add(s.Off, k)), Select(row, Add(s.Off, k))))))
 		st.assume(Forall([]*Term{k}, Implies(And(Ge(k, IntLit(0)), Lt(k, t.Len)), Eq(Select(nrow, Add(Add(s.Off, s.Len), k)), Select(trow, Add(t.Off, k))))))
 		st.heapSet(name, Store(arr, ref, nrow))
+		if len(names) == 1 {
+			x.bvalPrefixKept(st, s, row, nrow)
+			x.bvalAppended(st, s, t, trow, nrow)
+		}
 	}
 	return VSlice{Arr: ref, Off: s.Off, Len: nl, Cap: c, Elem: s.Elem}
 }
@@ -223,11 +231,36 @@ func (x *Explorer) appendInPlace(st *State, s, t VSlice) Val {
 		st.assume(Forall([]*Term{k}, Implies(And(Ge(k, IntLit(0)), Lt(k, t.Len)), Eq(Select(nrow, Add(start, k)), Select(trow, Add(t.Off, k))))))
 		st.assume(Forall([]*Term{k}, Implies(Or(Lt(k, start), Ge(k, Add(start, t.Len))), Eq(Select(nrow, k), Select(row, k)))))
 		st.heapSet(name, Store(arr, s.Arr, nrow))
+		if len(names) == 1 {
+			x.bvalPrefixKept(st, s, row, nrow)
+			x.bvalAppended(st, s, t, trow, nrow)
+		}
 	}
 	if tval != nil {
 		st.assume(Eq(st.bval(res), tval))
 	}
 	return res
+}
+
+// bvalPrefixKept: the bytes s held keep their value (as a byte string, in any window) in the row
+// that append produced - the ground link between bval terms over the old and the new row.
+func (x *Explorer) bvalPrefixKept(st *State, s VSlice, oldRow, newRow *Term) {
+	if !isByteSlice(types.NewSlice(s.Elem)) {
+		return
+	}
+	o := Sym(fmt.Sprintf("bo!%d", x.fresh), SInt)
+	n := Sym(fmt.Sprintf("bn!%d", x.fresh), SInt)
+	x.fresh++
+	in := And(Ge(o, s.Off), Ge(n, IntLit(0)), Le(Add(o, n), Add(s.Off, s.Len)))
+	st.assume(Forall([]*Term{o, n}, Implies(in, Eq(UF("bval", SInt, newRow, o, n), UF("bval", SInt, oldRow, o, n)))))
+}
+
+// bvalAppended: the part that append added is t, as a byte string.
+func (x *Explorer) bvalAppended(st *State, s, t VSlice, tRow, newRow *Term) {
+	if !isByteSlice(types.NewSlice(s.Elem)) {
+		return
+	}
+	st.assume(Eq(UF("bval", SInt, newRow, Add(s.Off, s.Len), t.Len), UF("bval", SInt, tRow, t.Off, t.Len)))
 }
 
 func (x *Explorer) doCopy(st *State, d0, s0 Val) Val {
